@@ -13,6 +13,9 @@ package c11
 //     truncation of 4 valid request texts;
 //  F  positional == named: for every method and every admissible argument prefix both spellings must produce the
 //     same invocation and the same result.
+//  G  chunking environment (chunk_test.go): 13 shapes of LARGE requests x sizes straddling 512 / 640 / 1 Ki / 4 Ki
+//     delivered through a reader that returns harness-chosen pieces: every 2-piece split, every 3- (thorough: 4-) piece
+//     split over a grid, x 2 EOF modes x 3 transports; same invocation log and canonical answer as one-piece delivery.
 // Oracle: oracle_test.go (JSON-RPC 2.0 grammar + exactly-once invocation log), JSON read by json_test.go.
 //
 // Findings on the unchanged tree (each reproduced on the real code; keys are kept specific on purpose):
@@ -97,19 +100,25 @@ var transportName = []string{"HandleReader", "HandleReadWriter", "HTTP"}
 
 // run returns the bytes the transport emitted, the invocation log, and a non-empty problem for panic / error.
 func (x *runner) run(via int, input []byte) (out []byte, calls []string, problem string) {
+	return x.runFrom(via, input, bytes.NewReader(input))
+}
+
+// runFrom is run with the transport's byte source chosen by the caller (part G: a reader that hands the same bytes
+// out in harness-chosen pieces); input is only used for the watchdog's report.
+func (x *runner) runFrom(via int, input []byte, src io.Reader) (out []byte, calls []string, problem string) {
 	x.h.take()
 	x.cur.Store(&flight{string(input), time.Now()})
 	defer x.cur.Store(nil)
 	pan, msg := ev.Guard(func() {
 		switch via {
 		case viaReader:
-			o, _, err := x.srv.HandleReader(context.Background(), bytes.NewReader(input))
+			o, _, err := x.srv.HandleReader(context.Background(), src)
 			if err != nil {
 				problem = "error-return " + err.Error()
 			}
 			out = o
 		case viaReadWriter:
-			rw := &rwPair{Reader: bytes.NewReader(input)}
+			rw := &rwPair{Reader: src}
 			if err := x.srv.HandleReadWriter(context.Background(), 0, rw); err != nil {
 				problem = "error-return " + err.Error()
 			}
@@ -119,7 +128,7 @@ func (x *runner) run(via int, input []byte) (out []byte, calls []string, problem
 			}
 		case viaHTTP:
 			rec := httptest.NewRecorder()
-			req := httptest.NewRequest(http.MethodPost, "/", bytes.NewReader(input))
+			req := httptest.NewRequest(http.MethodPost, "/", src)
 			x.http.ServeHTTP(rec, req)
 			out = rec.Body.Bytes()
 			if rec.Code != http.StatusOK {
@@ -839,6 +848,14 @@ func TestCheck(t *testing.T) {
 	}
 
 	lap("D")
+	// ---- G: large requests delivered in pieces (chunk_test.go) --------------------------------
+	partG(r, b, runners, W)
+
+	lap("G")
+	// ---- H: runs of insignificant whitespace of every length at every structural position (ws_test.go) ----
+	partH(r, b, runners, W)
+
+	lap("H")
 	// ---- evidence ------------------------------------------------------------------------------
 	r.Set("evaluations", b.evals)
 	r.Set("distinct_nontrivial", int64(len(b.outcomes)))
@@ -846,7 +863,9 @@ func TestCheck(t *testing.T) {
 	r.Set("rule", "A: all byte strings <= max_len over "+strconv.Itoa(len(alphabet))+" symbols; B: full product jsonrpc x method x params x id x 2 member orders x 3 transports; "+
 		"C: all batches <= "+strconv.Itoa(maxBatch)+" entries over "+strconv.Itoa(len(batchEntries))+" entry kinds x pool sizes {4,1} x {HandleReader,HTTP}; "+
 		"D: same batches, every choice of the next parked handler to complete at every quiescent point (synctest), pool sizes 1.."+strconv.Itoa(maxBatch)+"; "+
-		"E: all <=1/<=2 token edits + all truncations of "+strconv.Itoa(len(editBases))+" request texts; F: positional vs named pairs. "+
+		"E: all <=1/<=2 token edits + all truncations of "+strconv.Itoa(len(editBases))+" request texts; F: positional vs named pairs; "+
+		"G: "+strconv.Itoa(len(bigShapes))+" large-request shapes x sizes G_request_sizes, each delivered through a piecewise reader: every single split offset, every 2..k-subset of a per-request offset grid, x 2 EOF modes x 3 transports, compared with one-piece delivery (which is judged by the reference model); "+
+		"H: a run of 0..H_max_run_length whitespace bytes (3 byte mixes) at every structural position of "+strconv.Itoa(len(wsBases))+" request texts x 3 transports. "+
 		"An outcome is the (shape, multiset of response classes, invoked methods) triple; distinct_nontrivial counts different triples observed.")
 	type kv struct {
 		K string
@@ -869,6 +888,7 @@ func TestCheck(t *testing.T) {
 		"encoding/json and reflect are trusted for value conversion; JSON well-formedness of inputs and outputs is decided by the harness' own RFC 8259 reader",
 		"tolerances T1..T10 listed at the top of oracle_test.go",
 		"WebSocket transport not driven through a socket; HandleReadWriter, which it wraps, is driven with a message-counting writer (an empty Write is an emitted message)",
+		"part G: every Read of the piecewise reader returns >= 1 byte and never fails other than with io.EOF at the end (what net.Conn / an HTTP body does); zero-byte reads and mid-stream transport errors are not enumerated",
 		"handlers themselves do not panic and return marshalable values")
 	r.Finish()
 }
